@@ -98,7 +98,9 @@ Blank(cs, inv) ==
 NormTemplate(cs) == Blank(cs, FALSE)
 
 (*--------------------------- containment graph ---------------------------*)
-Methods == {"get", "put", "post", "delete", "options", "head", "patch", "trace"}
+(* the operations of a Path Item as the library knows them: those of OpenAPI 3.0.3 and connect (PathItem.Connect is *)
+(* read, written, routed and validated like the others; a Path Item with a connect operation is accepted)          *)
+Methods == {"get", "put", "post", "delete", "options", "head", "patch", "trace", "connect"}
 Sections == {"schemas", "parameters", "headers", "requestBodies", "responses", "securitySchemes",
              "examples", "links", "callbacks"}
 SectionOf(kind) == CASE kind = "schema" -> "schemas" [] kind = "parameter" -> "parameters"
